@@ -33,12 +33,21 @@ Fixpoint obj_get (fs : list (bytes * jval)) (k : bytes) : option jval :=
 
 Definition p_nil_element : Z := 2.      (* *t.List.Element with Element == nil *)
 
+(* octosql.Null.Is(t) == TypeRelationIs *)
+Fixpoint null_is (t : jty) : bool :=
+  match t with
+  | JNull | JAny => true
+  | JUnion alts => (fix go (alts : list jty) : bool := match alts with [] => false | a :: r => null_is a || go r end) alts
+  | _ => false
+  end.
+
 (* getOctoSQLValue(t, value); [ov] = None is the nil *fastjson.Value of a missing key.
-   fixed = false is the pinned code: no case for TypeIDNull (an explicit JSON null is "not ok"), and a
-   non-empty array against a list type without element type dereferences nil. *)
+   fixed = false is the pinned code: a missing key is ok only for the type NULL itself (not for a union
+   with NULL), there is no case for TypeIDNull (an explicit JSON null is "not ok"), and a non-empty array
+   against a list type without element type dereferences nil. *)
 Fixpoint get_value (fixed : bool) (t : jty) (ov : option jval) {struct t} : outcome (value * bool) :=
   match ov with
-  | None => Ok (VNull, match t with JNull => true | _ => false end)
+  | None => Ok (VNull, if fixed then null_is t else match t with JNull => true | _ => false end)
   | Some jv =>
     match t with
     | JNull => Ok (VNull, match jv with JVNull => fixed | _ => false end)
@@ -274,10 +283,18 @@ Fixpoint exec_json_rows (fields : list (bytes * jty)) (rows : list (list (bytes 
                  | _ => ([], false)
                  end
   end.
+(* when a line is an error the consumer stops at whichever failing job reaches it first: what it has
+   produced by then is a prefix of the rows before the first failing one *)
+Fixpoint rows_prefixb (a b : list (list value)) : bool :=
+  match a, b with
+  | [], _ => true
+  | x :: xs, y :: ys => list_eqb jvalue_eqb x y && rows_prefixb xs ys
+  | _ :: _, [] => false
+  end.
 Definition jfile_tie (c : jfile_case) : bool :=
   let '(fields, rows, orecs, ook) := c in
   let '(recs, ok) := exec_json_rows fields rows in
-  Bool.eqb ok ook && (negb ok || list_eqb (list_eqb jvalue_eqb) recs orecs).
+  Bool.eqb ok ook && (if ok then list_eqb (list_eqb jvalue_eqb) recs orecs else rows_prefixb orecs recs).
 Definition jfile_spec (c : jfile_case) : bool :=
   let '(fields, rows, orecs, ook) := c in
   forallb (fun vs => all2 (fun v f => has_jtype (snd f) v) vs fields) orecs &&
